@@ -549,7 +549,7 @@ def is_num(x):
 def reported(c, tw):
     """(price, scaled confidence) of a plain setup as exact rationals, from the account's integers"""
     a = c["ais"][0]
-    if c["setup"] == 3:
+    if c["setup"] in PYTH_SETUPS:
         full, price, conf, expo, publish, ema, ema_conf = a["f"]
         sc = Fraction(10) ** expo
         p, cf = (ema, ema_conf) if tw else (price, conf)
@@ -612,6 +612,33 @@ def check_prices(c, omc, seg):
                     return {"key": "bias-too-small", "what": f"{name}: bias {ds[0]} smaller than min(scaled confidence, 5% of price) = {float(need)}"}
                 if ds[0] > rc * ONE + slack:
                     return {"key": "bias-above-confidence", "what": f"{name}: bias {ds[0]} larger than the scaled confidence {float(rc * ONE)}"}
+        if c["setup"] in VENUE_SETUPS and n >= (1 << 24) and ds:       # (prices of a few raw units: the rescaling truncates everything)
+            # exchange-rate adjusted feeds: price and confidence are scaled by the same rate, so the RELATIVE confidence
+            # (scaled confidence / price of the base account) must gate and size the bias as for a plain feed. The rescaling
+            # works on the account's integers and truncates: allow one integer unit on price and confidence.
+            a0 = c["ais"][0]
+            if c["setup"] in PYTH_SETUPS:
+                full, price, conf, expo, publish, ema, ema_conf = a0["f"]
+                p_i, c_i, mult = ((ema, ema_conf) if tw else (price, conf)) + (Fraction(212, 100),)
+                unit = mult * ONE * Fraction(10) ** expo          # one integer unit of the RESCALED confidence, in I80F48 bits
+            else:
+                p_i, c_i, mult = a0["f"][0], a0["f"][1], Fraction(196, 100)
+                unit = Fraction(0)
+                if not (p_i < (1 << 79) and c_i < (1 << 79)):   # does not fit I80F48: the conversion wraps (observation above)
+                    p_i = 0
+            if p_i > 1 and c_i >= 0:
+                r_lo = Fraction(max(0, c_i - 1)) * mult / (p_i + 1)
+                r_hi = Fraction(c_i + 1) * mult / (p_i - 1)
+                rel = Fraction(1, 1 << 36)
+                slack = 64 + Fraction(n) * rel + 2 * unit
+                if r_lo * n - slack > frac_max(omc) * n * (1 + rel):
+                    return {"key": "confidence-above-maximum", "what": f"{name}: venue feed: scaled confidence is at least {float(r_lo)} of the price, above the "
+                            f"maximum {float(frac_max(omc))}, but a biased price was returned"}
+                w_lo = min(r_lo, Fraction(1, 20)) * n
+                w_hi = min(r_hi, Fraction(1, 20)) * n
+                if ds[0] < w_lo - slack or ds[0] > w_hi + slack:
+                    return {"key": "venue-bias-not-reported-confidence",
+                            "what": f"{name}: venue feed: bias {ds[0]} outside [{float(w_lo)}, {float(w_hi)}] = min(scaled confidence, 5%) of the price {n}"}
         # price_and_confidence agrees with the above
         pc = parts[1 if tw else 2].split()
         if len(pc) == 2 and is_num(pc[0]):
